@@ -183,10 +183,13 @@ func tsToken(ts profile.TokenSource) (*oauth2.Token, error) { return ts.TokenCtx
 
 // ---------- redirect-following probes (one HTTP client, three kinds of call through the 307 gateway) ----------
 
-const frontBase = "https://" + frontHost
+const (
+	frontBase = opIssuer + "/gw"   // discovery document whose endpoints go through the redirecting gateway
+	redirBase = opIssuer + "/gw/r" // anything below is answered with a 307 to the real path
+)
 
 func probeDiscovery(hc *http.Client) error {
-	_, err := client.Discover(ctxBG, opIssuer, hc, frontBase+"/redirect"+oidc.DiscoveryEndpoint)
+	_, err := client.Discover(ctxBG, opIssuer, hc, redirBase+oidc.DiscoveryEndpoint)
 	return err
 }
 
@@ -199,7 +202,7 @@ type ccRequest struct {
 
 func probeToken(hc *http.Client) (string, error) {
 	req := ccRequest{GrantType: oidc.GrantTypeClientCredentials, Scope: []string{"openid"}, ClientID: "c20", ClientSecret: "secret-c20"}
-	tok, err := client.CallTokenEndpoint(ctxBG, req, stubRP{hc: hc, url: frontBase + "/oauth/token"})
+	tok, err := client.CallTokenEndpoint(ctxBG, req, stubRP{hc: hc, url: redirBase + "/oauth/token"})
 	if err != nil {
 		return "", err
 	}
@@ -210,7 +213,7 @@ func probeToken(hc *http.Client) (string, error) {
 }
 
 func probeUserinfo(hc *http.Client, access string) error {
-	_, err := rp.Userinfo[*oidc.UserInfo](ctxBG, access, "Bearer", "c20", stubRP{hc: hc, url: frontBase + "/userinfo"})
+	_, err := rp.Userinfo[*oidc.UserInfo](ctxBG, access, "Bearer", "c20", stubRP{hc: hc, url: redirBase + "/userinfo"})
 	return err
 }
 
